@@ -117,3 +117,42 @@ Proof.
   exact (conj tie_top_pieces (conj tie_vocab_sizes (conj tie_first_values
         (conj tie_vocabulary_distinct tie_vocabulary_bytes)))).
 Qed.
+
+(* ---- the same about encode / decode REGENERATED FROM THE SOURCE (gen/EncodingGen.v, written by harness/py2coq.py from the current encoding.py on every run against model/PySem.v; proofs/EncodingGenEq.v) ---- *)
+From TV Require Import model.Tak model.PySem model.Run model.Encoding spec.EncodingSpec proofs.EncodingGenEq.
+From TV Require gen.GameGen gen.EncodingGen.
+(* the translated encode IS the model's encode: EVERY position (any reserves, any board), both flag values *)
+Theorem C06_source_encode_eq :
+  forall s p, EncodingGen.encode p s = embed_index (Encoding.encode s p).
+Proof. exact gen_encode_eq. Qed.
+(* lossless: decoding the translated encoding returns board, side to move and reserves *)
+Theorem C06_source_decode_encode :
+  forall s p, encodable p ->
+  exists l, EncodingGen.encode p s = Ok l /\ decode l = Some (board p, to_move p, reserves p).
+Proof. exact gen_decode_encode. Qed.
+(* injective on the domain *)
+Theorem C06_source_encode_injective :
+  forall s p q l, encodable p -> encodable q ->
+  EncodingGen.encode p s = Ok l -> EncodingGen.encode q s = Ok l ->
+  board p = board q /\ to_move p = to_move q /\ reserves p = reserves q.
+Proof. exact gen_encode_injective. Qed.
+(* mover-relative: swapping all colours, the reserves and the side to move changes only the side-to-move token
+   (every position) *)
+Theorem C06_source_encode_swap :
+  forall s p,
+  EncodingGen.encode (swap_colours p) s = res_map (flip_to_play s) (EncodingGen.encode p s).
+Proof. exact gen_encode_swap. Qed.
+(* every token fits in a byte *)
+Theorem C06_source_tokens_byte :
+  forall s p l, EncodingGen.encode p s = Ok l -> Forall (fun t => 0 <= t < 256) l.
+Proof. exact gen_tokens_byte. Qed.
+Theorem C06_source_decode_ok_iff :
+  forall toks p, zlen toks < 2 ^ 52 ->
+  (EncodingGen.decode toks = Ok p <-> decode_pos toks = Some p).
+Proof. exact gen_decode_ok_iff. Qed.
+(* lossless through the translated encode AND the translated decode *)
+Theorem C06_source_round_trip :
+  forall s p, encodable p ->
+  exists l, EncodingGen.encode p s = Ok l /\
+    (zlen l < 2 ^ 52 -> exists q, EncodingGen.decode l = Ok q /\ triple q = (board p, to_move p, reserves p)).
+Proof. exact gen_round_trip. Qed.
